@@ -359,6 +359,12 @@ func (i *Interpreter) evaluateUnaryOp(expr UnaryOpExpr, env *Environment) (inter
 	}
 }
 
+// Limits on the values `+` may build (same as the VM's).
+const (
+	maxConcatBytes    = 16 << 20
+	maxConcatElements = 1 << 20
+)
+
 // evaluateAdd handles addition and string concatenation
 func (i *Interpreter) evaluateAdd(left, right interface{}) (interface{}, error) {
 	// String concatenation
@@ -367,12 +373,20 @@ func (i *Interpreter) evaluateAdd(left, right interface{}) (interface{}, error) 
 		if !ok {
 			return nil, fmt.Errorf("cannot add string and %T", right)
 		}
+		// Bound what `+` may build: `s = s + s` in a loop doubles its
+		// operand and would exhaust memory long before the loop limit
+		if len(leftStr)+len(rightStr) > maxConcatBytes {
+			return nil, fmt.Errorf("string concatenation result exceeds %d bytes", maxConcatBytes)
+		}
 		return leftStr + rightStr, nil
 	}
 
 	// Array concatenation
 	if leftArr, ok := left.([]interface{}); ok {
 		if rightArr, ok := right.([]interface{}); ok {
+			if len(leftArr)+len(rightArr) > maxConcatElements {
+				return nil, fmt.Errorf("array concatenation result exceeds %d elements", maxConcatElements)
+			}
 			result := make([]interface{}, len(leftArr)+len(rightArr))
 			copy(result, leftArr)
 			copy(result[len(leftArr):], rightArr)
